@@ -7,6 +7,7 @@ Ev == TraceLog[l]
 
 ObsOK(e) ==
     /\ \A r \in Slots : e.obs[r].size = Len(elems'[r]) /\ e.obs[r].seq = elems'[r]
+                       /\ e.obs[r].seq_it = elems'[r] /\ e.obs[r].seq_acc = elems'[r]       \* const iterators; at() / data() / cbegin() / front() / back()
     /\ HasField(e, "live") => BagOfSeq(e.live) = LiveBag'
     /\ e.lerr = 0
 
